@@ -29,7 +29,9 @@ Sets == {CSet(FALSE, <<Rng(a, P(cC))>>), CSet(TRUE, <<Single(a)>>), CSet(FALSE, 
          CSet(FALSE, <<Rng(P(cC), P(100)), Rng(a, b)>>), CSet(TRUE, <<Rng(P(cC), P(100)), Single(a)>>),
          CSet(FALSE, ManyRanges), CSet(TRUE, ManyRanges), CSet(FALSE, SubSeq(ManyRanges, 1, 4)),
          CSet(FALSE, <<Rng(Chr(cSmile, TRUE), Chr(cSmile + 1, TRUE)), Single(a)>>), CSet(FALSE, <<Single(P(45)), Single(P(93))>>)}
-Atoms == {a, Chr(cSmile, FALSE), Chr(cEacute, TRUE), Chr(123, TRUE), P(45), P(46), Dot} \cup Sets
+\* (U+10000, the first code point that needs two UTF-16 code units, as the largest character of a pattern)
+Atoms == {a, Chr(cSmile, FALSE), Chr(cEacute, TRUE), Chr(123, TRUE), P(45), P(46), Dot, Chr(65536, TRUE),
+          CSet(FALSE, <<Single(a), Single(Chr(65536, TRUE))>>), CSet(FALSE, <<Rng(Chr(57344, TRUE), Chr(65536, TRUE))>>)} \cup Sets
 Quantifiers == {NoQ, QOpt, QStar, QPlus, Q(2, 2, FALSE), Q(1, 2, FALSE), Q(0, 2, FALSE), Q(2, Unbounded, FALSE), Q(0, 0, FALSE), Q(1, 1, FALSE),
                 Q(3, 5, FALSE), Q(3, Unbounded, FALSE)}
 NonGreedy == {Q(0, Unbounded, TRUE), Q(1, 2, TRUE)}
